@@ -36,6 +36,10 @@ theorem signMul_eq (neg : Bool) (x : ℝ) : signMul neg x = if neg then -x else 
 theorem signMul_ne_zero (neg : Bool) {x : ℝ} (h : x ≠ 0) : signMul neg x ≠ 0 := by
   rw [signMul_eq]; cases neg <;> simp [h]
 
+theorem signMul_inj (neg : Bool) {x y : ℝ} (h : signMul neg x = signMul neg y) : x = y := by
+  rw [signMul_eq, signMul_eq] at h
+  cases neg <;> simp at h <;> exact h
+
 theorem abs_signMul (neg : Bool) (x : ℝ) : |signMul neg x| = |x| := by
   rw [signMul_eq]; cases neg <;> simp
 
